@@ -120,6 +120,17 @@ def _impl(tier, seed, search):
         ok2, c = L.noraise('==', lambda: (l == Plucker(np.r_[v, w] * k), l == Plucker(np.r_[v, w] * -k), l != Plucker(np.r_[v, w] * k)), inp, 'Plucker ==')
         if ok2:
             L.check('==:positive-rescale', bool(c[0]) and not bool(c[2]), inp, 'the same oriented line under positive rescaling does not compare equal'); L.check('==:orientation', not bool(c[1]), inp, 'oppositely oriented line compares equal')
+        # parallel lines given with long direction vectors of different length (both 30 .. 1e3): parallel, and the distance is the offset
+        if sc <= 100:
+            ud_ = d / np.linalg.norm(d); offL = np.cross(ud_, inputs.unit_axis(g))
+            if np.linalg.norm(offL) > 0.3:
+                offL = offL / np.linalg.norm(offL) * float(g.uniform(0.5, 10)); k1_ = 10.0 ** g.uniform(1.5, 3); k2_ = k1_ * float(g.uniform(1.5, 3.5)) * float(g.choice([-1, 1]))
+                la_, lb_ = Plucker.PointDir(P, ud_ * k1_), Plucker.PointDir(P + offL, ud_ * k2_)
+                linp = dict(P=P, direction=ud_, k1=k1_, k2=k2_, offset=offL)
+                ok2, c = L.noraise('isparallel(long directions)', lambda: (la_.isparallel(lb_), lb_.isparallel(la_), la_.distance(lb_), lb_.distance(la_)), linp, 'isparallel / distance with long direction vectors')
+                if ok2:
+                    L.check('isparallel(long)', bool(c[0]) and bool(c[1]), linp, 'parallel lines with long direction vectors are not reported parallel', sig='isparallel:long')
+                    L.close('distance-parallel(long)', [float(c[2]), float(c[3])], [float(np.linalg.norm(offL))] * 2, TOL, max(sc, 10.0), linp, what='distance between parallel lines with long direction vectors is not their separation', sig='isparallel:long')
         # a parallel copy shifted sideways by 1e-4 .. 1e-2 of the data magnitude is a different line
         sh_ = np.cross(d / np.linalg.norm(d), inputs.unit_axis(g))
         if np.linalg.norm(sh_) > 0.3:
